@@ -54,7 +54,7 @@ func leaderMonitorRound(c *Ctx, id string) {
 	}
 	svcT := w.NamedType("servicediscovery", "Service")
 	c.need(svcT != nil, id, "servicediscovery.Service")
-	for k := 0; k <= 2; k++ {
+	for k := 0; k <= c.bound(2, 4); k++ {
 		kk := k
 		bools := []string{recvName + "." + leader}
 		for i := 0; i < k; i++ {
@@ -173,7 +173,7 @@ func leaderHeartbeatRound(c *Ctx, id string) {
 		recvName = body.Params[0].Name()
 	}
 	leaderSym := recvName + ".leaderService"
-	for k := 0; k <= 2; k++ {
+	for k := 0; k <= c.bound(2, 4); k++ {
 		kk := k
 		bools := []string{leaderSym + "==nil", "leaderPingFails", "reconnectFails", "registerFails"}
 		for i := 0; i < k; i++ {
@@ -475,7 +475,7 @@ func leaderRoles(c *Ctx, id string) {
 		_ = rmr
 		return ""
 	}, "registered ⇒ client closed and entry deleted under the given name, once; otherwise nothing")
-	for k := 0; k <= 2; k++ {
+	for k := 0; k <= c.bound(2, 5); k++ {
 		kk := k
 		h := &Harness{Fn: rmAll, Quiet: quietLog, Concrete: true, NoInline: map[string]bool{fname(remove): true},
 			Complete: func(st *State, name string, args []AV) (AV, [][]AV, bool) {
